@@ -30,14 +30,14 @@ Definition modelled_action_sources : list (string * string) :=
   [("core::sequence_range#1", "836c77ee233b1774");
    ("rfc2087::quota_resource_name#1", "91927c296679eac2");
    ("rfc2971::id_param_list_not_nil#1", "89ed0c0f32dcc47b");
-   ("rfc2971::resp_id#1", "b1c081c3ba029a73");
+   ("rfc2971::resp_id#1", "5c372e687f29c325");
    ("rfc3501::capability#1", "7a2d10b7cf8ac5ad");
    ("rfc3501::ensure_capabilities_contains_imap4rev", "");
    ("rfc3501::mailbox#1", "b413533ed1bb5866");
    ("rfc3501::name_attribute#1", "72f4d8a8752da5a1");
    ("rfc3501::resp_text#1", "f288dcd4a4d253a8");
    ("rfc3501::trailing_resp_text#1", "50fdf7c7cf1c9d47");
-   ("rfc4314::list_rights_optional#1", "b20916861142a39b");
+   ("rfc4314::list_rights_optional#1", "37a6c0567c30ef33");
    ("rfc4314::map_text_to_rights", "");
    ("rfc4315::uid_range#1", "4b39305dce4532ea");
    ("rfc4315::uid_set#1", "edbae23b2cbdfcad");
